@@ -21,9 +21,10 @@ RULE = (
     "Hypothesis-generated pipelines: producer in {data function, dds.keep call site, one function kept under two paths of which readers load both}, load placed in {root, helper, helper "
     "of helper, kept function, helper under a kept function, argument list of a plain call, loaded value handed to a kept function as run-time argument}, order in {producer in an earlier evaluation, earlier in the same "
     "evaluation, later in the same evaluation, never produced}, padded with unrelated statements; histories: evaluate, edit "
-    "the producer's tracked variable or body, move the producer before / after the load or out of the evaluated function "
+    "the producer's tracked variable or body (rewriting and reloading the module, or assigning the variable in the running process), move the producer before / after the load or out of the evaluated function "
     "(in-process or across a restart), optionally re-evaluate the producer, evaluate again, no-op re-evaluation; two templates: "
-    "keep first in the source but executed after the load, and a reader whose module imports dds only inside the function; stores "
+    "keep first in the source but executed after the load, a reader whose module imports dds only inside the function, and an "
+    "uninstrumented pipeline (no recording calls in the functions; variable assigned in the running process or module reloaded); stores "
     "{memory, local, local+LRU}. Oracles: value == reference interpreter (load = latest value kept in program order, else the "
     "committed one); a kept reader runs iff the value served at the path is new to it; read-before-produce and never-produced "
     "raise a DDSException. Non-trivial = the served value changed at least once during the history, or the load precedes its "
@@ -39,7 +40,7 @@ ORDERS = ["earlier_eval", "same_before", "same_before", "same_after", "same_afte
 STORES = [("memory", None), ("local", None), ("local-lru", 2)]
 
 
-def build(placement, order, producer, noise, multi, kwarg=False):
+def build(placement, order, producer, noise, multi, kwarg=False, pathvar=False):
     """Returns (prog, root index, producer entry index)."""
     funcs = []
     vars_ = [{"name": "VS", "mod": 0, "val": 1}, {"name": "VX", "mod": 0, "val": "x"}]
@@ -58,7 +59,7 @@ def build(placement, order, producer, noise, multi, kwarg=False):
         p_entry = add("mk", ([["keep", "/src/u", pbody, "bare", []]] if producer == "keepcall2" else []) + [["keep", "/src/v", pbody, "bare", []]])
         call_prod = ["call", p_entry, "bare", []]
     unrelated = add("other", [["var", 1], ["ext", 0]], data="/other")
-    ld = ["load", "/src/v"]
+    ld = ["load", "/src/v", "pathvar"] if pathvar else ["load", "/src/v"]   # pathvar: dds.load(<module-level pathlib.Path constant>)
     # with two paths serving the same blob, readers that have a body of their own load both
     ld2 = [["load", "/src/u"]] if producer == "keepcall2" else []
     # reader chain
@@ -135,12 +136,15 @@ def case_strategy():
         steps = []
         n = draw(st.integers(1, 4))
         for _ in range(n):
-            c = draw(st.sampled_from(["edit_prod", "edit_prod", "edit_body", "noop", "restart", "eval_prod", "switch"]))
+            c = draw(st.sampled_from(["edit_prod", "edit_prod", "edit_body", "noop", "restart", "eval_prod", "switch", "live_prod"]))
             if c == "switch":
                 # the code of the evaluated function is restructured (the producer moves before / after the load, or away)
                 steps.append(["switch", draw(st.sampled_from(["earlier_eval", "same_before", "same_after"]))])
                 if draw(st.booleans()):
                     steps.append(["setvar", draw(st.integers(2, 4))])
+            elif c == "live_prod":
+                # the producer's tracked variable is assigned in the running process: no module is reloaded, every function object stays
+                steps.append(["setvar_live", draw(st.integers(5, 8))])
             elif c == "edit_prod":
                 steps.append(["setvar", draw(st.integers(2, 4))])
             elif c == "edit_body":
@@ -149,11 +153,11 @@ def case_strategy():
                 steps.append(["noop"])
             else:
                 steps.append([c])
-            if order == "earlier_eval" and c in ("edit_prod", "edit_body") and draw(st.booleans()):
+            if order == "earlier_eval" and c in ("edit_prod", "edit_body", "live_prod") and draw(st.integers(0, 3)):
                 steps.append(["eval_prod"])
             steps.append(["eval_root"])
         return {"placement": placement, "order": order, "producer": producer, "noise": noise, "multi": multi,
-                "store": [kind, cache], "steps": steps, "inproc": draw(st.booleans()), "kwarg": draw(st.booleans())}
+                "store": [kind, cache], "steps": steps, "inproc": draw(st.booleans()), "kwarg": draw(st.booleans()), "pathvar": draw(st.integers(0, 2)) == 0}
 
     return gen()
 
@@ -163,7 +167,7 @@ def check_case(case, ev=None, scratch=None):
     scratch = scratch or common.Scratch("vf-c09")
     kind, cache = case["store"]
     sess = Session(scratch, kind, cache)
-    prog, root, p_entry, reader_kept = build(case["placement"], case["order"], case["producer"], case["noise"], case["multi"], case.get("kwarg", False))
+    prog, root, p_entry, reader_kept = build(case["placement"], case["order"], case["producer"], case["noise"], case["multi"], case.get("kwarg", False), case.get("pathvar", False))
     order = case["order"]
     applied = []
     committed = {}
@@ -223,7 +227,15 @@ def check_case(case, ev=None, scratch=None):
         eval_root(cur, -1)
         for si, stp in enumerate(case["steps"]):
             k = stp[0]
-            if k in ("setvar", "bump_prod", "switch"):
+            if k == "setvar_live":
+                applied.append(["setvar", 0, stp[1] + si * 10])
+                cur = M.apply_edit(cur, applied[-1])
+                stats["changes"] += 1
+                stats["live"] = stats.get("live", 0) + 1
+                sess.write(cur)   # the file follows; nothing is reloaded
+                v = cur["vars"][0]
+                sess.w.call("call", module="vf.harness.worker", func="cmd_setvar", args=[M.modname(cur, v["mod"]), v["name"], M.dec(v["val"])])
+            elif k in ("setvar", "bump_prod", "switch"):
                 if k == "setvar":
                     applied.append(["setvar", 0, stp[1] + si * 10])
                     cur = M.apply_edit(cur, applied[-1])
@@ -238,7 +250,7 @@ def check_case(case, ev=None, scratch=None):
                     if newo == cur_order[0]:
                         continue
                     cur_order[0] = newo
-                    cur = build(case["placement"], newo, case["producer"], case["noise"], case["multi"], case.get("kwarg", False))[0]
+                    cur = build(case["placement"], newo, case["producer"], case["noise"], case["multi"], case.get("kwarg", False), case.get("pathvar", False))[0]
                     for e in applied:
                         cur = M.apply_edit(cur, e)
                     stats["switches"] = stats.get("switches", 0) + 1
@@ -261,8 +273,9 @@ def check_case(case, ev=None, scratch=None):
         if ev is not None:
             nt = stats["changes"] >= 1 or order.startswith("same_after")
             ev.case({k: case[k] for k in case}, nt,
-                    features=["place:" + case["placement"], "order:" + order, "prod:" + case["producer"], "store:" + kind]
+                    features=["place:" + case["placement"], "order:" + order, "prod:" + case["producer"], "store:" + kind] + (["load-of-a-Path-constant"] if case.get("pathvar") else [])
                     + (["restructured-in-process" if (case["inproc"] or kind == "memory") else "restructured"] if stats.get("switches") else [])
+                    + (["variable-assigned-in-process"] if stats.get("live") else [])
                     + (["reader-cache-hit"] if stats["reader_hits"] else []) + (["reader-rerun"] if stats["reader_runs"] > 1 else []))
     finally:
         sess.close()
@@ -519,6 +532,126 @@ def check_local_import(case, ev=None, scratch=None):
             scratch.clean()
 
 
+# ---- uninstrumented pipeline: no recording calls inside the functions, staleness is judged from values only ---------------
+
+PURE_SRC = """import dds
+
+VS = {vs}
+
+
+def prod():
+    return ('prod', VS)
+
+
+def mk():
+    return dds.keep('/src/v', prod)
+
+
+def read():
+    return dds.load('/src/v')
+
+
+def mid():
+    return ('mid', read())
+
+
+def bump(x):
+    return ('bump', x)
+
+
+def enriched():
+    return bump({inner}())
+
+
+def report():
+    return ('report', enriched())
+
+
+def root():
+    return dds.keep('/en', {kept})
+"""
+
+
+def pure_strategy():
+    from hypothesis import strategies as st
+
+    return st.fixed_dictionaries({
+        "pure": st.just(True),
+        "inner": st.sampled_from(["read", "mid"]),
+        "kept": st.sampled_from(["enriched", "report", "read"]),
+        "store": st.sampled_from(STORES).map(list),
+        "edits": st.lists(st.sampled_from(["live", "live", "reload", "none", "revert_live"]), min_size=1, max_size=4),
+    })
+
+
+def check_pure(case, ev=None, scratch=None):
+    """The functions contain nothing but the pipeline (the recording calls of the other programs are themselves external
+    dependencies and could hide shortcuts taken for functions without any): a kept function whose callee loads a path must
+    follow the content of that path, judged from the returned values."""
+    from ..harness import proc
+    import os
+
+    own = scratch is None
+    scratch = scratch or common.Scratch("vf-c09")
+    root_dir, store_dir = scratch.sub(), scratch.sub()
+    w = proc.Worker()
+    tag = f"[uninstrumented pipeline, kept={case['kept']} via {case['inner']}, {case['store'][0]}]"
+    try:
+        vs = 1
+        hist = [vs]
+        mt = [1600000000]
+
+        def files():
+            return {"pk/__init__.py": "", "pk/m0.py": PURE_SRC.format(vs=vs, inner=case["inner"], kept=case["kept"])}
+
+        for rel, content in files().items():
+            pth = os.path.join(root_dir, rel)
+            os.makedirs(os.path.dirname(pth), exist_ok=True)
+            open(pth, "w").write(content)
+            os.utime(pth, (mt[0], mt[0]))
+        w.call("init", root=root_dir, accepted=["pk"], store={"kind": case["store"][0], "dir": store_dir, "cache": case["store"][1]})
+
+        def want():
+            src = ("prod", vs)
+            inner = src if case["inner"] == "read" else ("mid", src)
+            en = ("bump", inner)
+            return {"enriched": en, "report": ("report", en), "read": src}[case["kept"]]
+
+        def evaluate(step):
+            r = w.call("eval", module="pk.m0", func="mk", style="eval")
+            if r["exc"] is not None or r["value"] != ("prod", vs):
+                raise Violation(f"{tag} step {step}: keeping the producer gave {r['exc'] or r['value']!r}", case)
+            r = w.call("eval", module="pk.m0", func="root", style="eval")
+            if r["exc"] is not None:
+                raise Violation(f"{tag} step {step}: evaluation raised {r['exc']['type']}: {r['exc']['msg'][:300]}", case)
+            if r["value"] != want():
+                raise Violation(f"{tag} step {step}: the kept function returned {r['value']!r}, /src/v now serves {('prod', vs)!r} (expected {want()!r}); edits={case['edits']}", case)
+            r = w.call("load", path="/en")
+            if r["exc"] is not None or r["value"] != want():
+                raise Violation(f"{tag} step {step}: dds.load('/en') gives {r['exc'] or r['value']!r}, expected {want()!r}", case)
+
+        evaluate(-1)
+        for si, ed in enumerate(case["edits"]):
+            if ed in ("live", "reload"):
+                vs = max(hist) + 1
+            elif ed == "revert_live" and len(hist) > 1:
+                vs = hist[-2]
+            hist.append(vs)
+            mt[0] += 10
+            w.call("write_files", files=files(), reload=False, mtime=mt[0])
+            if ed == "reload":
+                w.call("call", module="vf.harness.session", func="_reload_present", args=[["pk", "pk.m0"]])
+            else:
+                w.call("call", module="vf.harness.worker", func="cmd_setvar", args=["pk.m0", "VS", vs])
+            evaluate(si)
+        if ev is not None:
+            ev.case(case, len(set(hist)) > 1, features=["uninstrumented-pipeline", "pure-kept:" + case["kept"]] + ["pure-edit:" + e for e in sorted(set(case["edits"]))])
+    finally:
+        w.close()
+        if own:
+            scratch.clean()
+
+
 def enc_any(v):
     if isinstance(v, tuple):
         return ["t"] + [enc_any(x) for x in v]
@@ -534,6 +667,8 @@ def shard(idx, n, tier, seed, count):
         v = common.hyp_drive(case_strategy(), lambda c: check_case(c, ev, scratch), seed * 1000 + 900 + idx, count, ev)
         if v is None:
             v = common.hyp_drive(dyn_strategy(), lambda c: check_dynamic(c, ev, scratch), seed * 1000 + 950 + idx, max(4, count // 5), ev)
+        if v is None:
+            v = common.hyp_drive(pure_strategy(), lambda c: check_pure(c, ev, scratch), seed * 1000 + 990 + idx, max(3, count // 8), ev)
         if v is None:
             v = common.hyp_drive(loc_strategy(common.open_features(ID)), lambda c: check_local_import(c, ev, scratch), seed * 1000 + 970 + idx, max(3, count // 8), ev)
     finally:
@@ -551,5 +686,7 @@ def replay(case):
         check_dynamic(case)
     elif case.get("loc"):
         check_local_import(case)
+    elif case.get("pure"):
+        check_pure(case)
     else:
         check_case(case)
